@@ -61,14 +61,14 @@ structure SameP (a b : Track) : Prop where
   lastP : a.lastP = b.lastP
   cur : a.cur = b.cur
   curRes : a.curRes = b.curRes
-  acct : a.acct = b.acct
+  ex1 : a.ex1 = b.ex1
   sends : a.sends = b.sends
   batchTps : a.batchTps = b.batchTps
 
 theorem SameP.rfl' (a : Track) : SameP a a := ⟨rfl, rfl, rfl, rfl, rfl, rfl, rfl⟩
 theorem SameP.trans {a b c : Track} (h1 : SameP a b) (h2 : SameP b c) : SameP a c :=
   ⟨h1.produced.trans h2.produced, h1.lastP.trans h2.lastP, h1.cur.trans h2.cur, h1.curRes.trans h2.curRes,
-    h1.acct.trans h2.acct, h1.sends.trans h2.sends, h1.batchTps.trans h2.batchTps⟩
+    h1.ex1.trans h2.ex1, h1.sends.trans h2.sends, h1.batchTps.trans h2.batchTps⟩
 
 theorem trackOb_sameP (e : Ev) (r : Bool) (t : Track) (o : Ob) (h : isProduce o = false) : SameP (trackOb e r t o) t := by
   cases o <;> first | exact ⟨rfl, rfl, rfl, rfl, rfl, rfl, rfl⟩ | (simp [isProduce] at h)
@@ -499,23 +499,25 @@ theorem tinv_step (cfg : Cfg) (st : St) (t : Track) (pre : Snap) (e : Ev) (h : T
           rw [hps]; apply fresh_groups hrel' hp'
           rw [c5]; simp only [show (mkStep cfg st e).ev = e from rfl, hr', Bool.false_eq_true, if_false]; rw [hps]
         simp only [oneBatchOk, hr', Bool.false_eq_true, if_false, Bool.and_eq_true, List.all_eq_true,
-          decide_eq_true_eq, Bool.or_eq_true, Bool.not_eq_true']
+          decide_eq_true_eq, Bool.or_eq_true, List.contains_iff_mem]
         have hsp' := hsp
         rw [hr'] at hsp'
         rw [hsp'.produced, k1, hsp'.cur, hsp'.curRes]
         refine ⟨⟨?_, fun x hx hc => Nat.lt_irrefl _ (hpo x hx x hc)⟩, ?_⟩
         · have := free_at_produce pre e h.fr.rel rid ps (by rw [hobs]; exact List.mem_append_right _ List.mem_cons_self) hr'
           simpa using this
-        by_cases hacc : (trackEv pre t e).acct = true
-        · right
-          intro x hx
-          -- x was produced before; it is no longer outstanding, so it has fired
-          have hacc' : (track pre t (mkStep cfg st e)).acct = true := by
-            rw [(track_acct pre t (mkStep cfg st e)).1]; exact hacc
+        intro x hx
+        by_cases hex : x ∈ (trackEv pre t e).ex1
+        · right; rw [hsp'.ex1]; exact hex
+        · left
+          -- x was produced before and is not exempt; it is no longer outstanding, so it has fired
+          have hex' : x ∉ (track pre t (mkStep cfg st e)).ex1 := by
+            rw [(track_ex pre t (mkStep cfg st e)).1]; exact hex
           have hnout : x ∉ (step cfg st e).1.outstanding := by
             intro hc
-            rcases hfr'.v1 hacc' x hc with hq | ⟨_, _, hpd⟩
+            rcases hfr'.v1 x hc with (hq | hq) | ⟨_, _, hpd⟩
             · exact Nat.lt_irrefl _ (g0.p_q x hx x hq)
+            · exact hex' hq
             · have := pend_sub_allSids true _ rid b hp' x hpd
               rw [show b.allSids = payloadSids b.groups from rfl, ← hfresh] at this
               exact Nat.lt_irrefl _ (hpo x this x hx)
@@ -524,8 +526,6 @@ theorem tinv_step (cfg : Cfg) (st : St) (t : Track) (pre : Snap) (e : Ev) (h : T
             firedSids_append_single_produce] at hf
           rw [foldl_trackOb_fired, trackEv_fired]
           exact hf
-        · left
-          rw [hsp'.acct]; simpa using hacc
     · -- payload integrity
       simp only [payloadStep, List.all_eq_true]
       intro o ho
